@@ -329,7 +329,10 @@ def class_source(rec):
                 out.append(f"    @spec_property(cache={a['prop'] == 'cached'!r}, overridable=True" + (f", invalidated_by={list(inv)!r}" if inv else "") + ")")
                 out.append(f"    def {n}(self):")
                 out.append(f"        CB.hit('getter')")
-                out.append(f"        return {K.get('mut', K.get('lit'))}")
+                raw = K.get('mut', K.get('lit'))
+                if a.get("prop_raw"):
+                    raw = f"tuple({raw})"  # what the getter hands out conforms only AFTER the attribute's preparation (tuple -> list)
+                out.append(f"        return {raw}")
                 continue
             out.append(f"    {n}: {K['ann']}{src}")
         for a in (alist if preparers_part else []):
@@ -837,6 +840,7 @@ def property_served_records():
         {"name": "PropNums", "attrs": [{"kind": "nums", "default": "none", "prop": "cached"}, {"kind": "int", "default": "lit"}], "opts": {}},
         {"name": "PropScores", "attrs": [{"kind": "scores", "default": "none", "prop": "cached"}, {"kind": "int", "default": "lit"}], "opts": {}},
         {"name": "PropKidsUncached", "attrs": [{"kind": "kids", "default": "none", "prop": "uncached"}], "opts": {}},
+        {"name": "PropNumsRaw", "attrs": [{"kind": "nums", "default": "none", "prop": "cached", "prop_raw": True}, {"kind": "int", "default": "lit"}], "opts": {}},
         {"name": "PropNumsStored", "attrs": [{"kind": "nums", "default": "none", "prop": "stored"}, {"kind": "int", "default": "lit"}], "opts": {}},
         {"name": "PropTagsStored", "attrs": [{"kind": "tags", "default": "none", "prop": "stored"}, {"kind": "scores", "default": "none", "prop": "stored"}], "opts": {}},
     ]
